@@ -128,7 +128,15 @@ def jobs(ctx):
     signed = [(c, {"OxygenIndicator": {"charge_values": "0, -1, 0"}}) for c in cfgs
               if c.endswith("water/coulomb_cell_veto_lj_cell_veto.ini")
               or c.endswith("water/coulomb_power_bounded_lj_cell_bounded.ini")]
-    return [(c, {}) for c in cfgs] + hist.crowded_jobs(cfgs) + signed + hist.variations(ctx, cfgs, ctx.n(10, 100))
+    # harness-generated soft-sphere configurations with a cell system (non-cubic boxes, unequal cell counts)
+    gen = []
+    for _ in range(ctx.n(60, 600)):
+        g = hist.generated_ini(ctx.rng)
+        if "single_active_cell_occupancy" in g[1]:
+            gen.append(g)
+        if len(gen) >= ctx.n(8, 60):
+            break
+    return [(c, {}) for c in cfgs] + hist.crowded_jobs(cfgs) + signed + hist.variations(ctx, cfgs, ctx.n(10, 100)) + gen
 
 
 def payloads(ctx):
@@ -136,8 +144,9 @@ def payloads(ctx):
     fresh in-state generation and in-state recording of the tracer are switched off (smaller, faster traces)."""
     seeds = (ctx.seed, ctx.seed + 1000) if ctx.tier == "thorough" else (ctx.seed,)
     max_legs = ctx.n(250, 800)
-    return [{"config": c, "seed": s, "max_legs": max_legs, "overrides": ov, "record_fresh": False,
-             "record_instates": False} for (c, ov) in jobs(ctx) for s in seeds]
+    return [dict({"config": c, "seed": s, "max_legs": max_legs, "record_fresh": False, "record_instates": False},
+                 **({"ini_text": ov, "overrides": {}} if isinstance(ov, str) else {"overrides": ov}))
+            for (c, ov) in jobs(ctx) for s in seeds]
 
 
 def run(ctx, replay_jobs=None):
